@@ -20,6 +20,21 @@ CHECKS = {
     "C19": ("fault_enumeration", "runtime fault enumeration: every malformed / unresolvable tag value of an explicit list plus random dotted names is fed to the real from_json; oracle = exception class",
             "the enumerated tag faults (every JSON type, dots, modules, functions, type variables, constants, failing imports) are all executed and must raise a JSONSerializationError subclass; random dotted names extend the list",
             "tags that an independent resolver finds valid are skipped; import failures other than ImportError are outside the enumeration", "4/C19"),
+    "C03": ("exploration", "runtime schedule exploration from the client boundary: random and (thorough) exhaustively enumerated interleavings of next()/drain/abandon/raise over several live evaluation iterators; oracle = the same build evaluated alone",
+            "query sets with every sharing pattern are driven under sequential and interleaved schedules (all interleavings of two iterators with <=7 steps in the thorough tier); every iterator must yield exactly (a prefix of, when abandoned) what a freshly built identical query yields alone",
+            "single-threaded interleavings of generator steps only (krrood has no threads); reference and scheduled build run under the same PYTHONHASHSEED", "4/C03"),
+    "C08": ("exploration", "runtime reference-model monitor: rule trees written through the with-block API vs a ripple-down-rules interpreter applied to every binding of the domain product",
+            "random rule trees (and, thorough, every tree shape with <=4 branches) are built on the real API and evaluated; the inferred instances (branch tag + binding identities) must equal the interpreter's",
+            "interpreter readings listed under assumptions in the evidence; two listed findings are recognised by tree features", "4/C08"),
+    "C10": ("exploration", "runtime event-log monitor: instrumented domains / properties / predicates write a totally ordered log; offline prefix and bound checker",
+            "every domain is a logging one-shot generator and every user attribute / method / predicate logs; the checker demands an empty log at construction, prefix logs and prefix results for every k, and absolute pull bounds for single-variable and nested two-variable queries",
+            "one element of look-ahead per domain tolerated; event identity is by object name", "4/C10"),
+    "C11": ("exploration", "runtime reference-model monitor: entity_matching patterns vs a direct Python predicate over the domain elements",
+            "random nested patterns over a Symbol model are evaluated on the real engine and the returned set of elements (and the consistency of selected inner parts) is compared with a predicate derived from the pattern spec",
+            "set comparison; readings of literal-on-collection / match_any / match_all as stated in the property", "4/C11"),
+    "C12": ("exploration", "runtime event-log monitor + complete enumeration of call shapes: body call log vs candidate bindings, results vs concrete filtering",
+            "every (kind, arity, defaults, positional/keyword x variable/concrete/omitted) call shape is executed: concrete calls must run once and return the plain result, symbolic calls must not run at construction, and during evaluation the body must be called once per candidate binding with each parameter holding the argument written in that position",
+            "distinct variables per parameter; the predicate is the only condition of the query", "4/C12"),
     "C09": ("exploration", "runtime monitor: sequential-spec oracle over an exhaustively enumerated (n, constraint) space + icontract post-conditions on the constraint classes",
             "every (solution count n<=N, constraint, bounds around n, selector, domain kind) combination is executed on the real engine and the observed (yielded prefix, exception class) is compared with the sequential specification; contracts watch assert_satisfaction on every call",
             "the harness controls n by construction; exploration is bounded by N (6 quick / 10 thorough + random n<=60)", "4/C09"),
